@@ -191,7 +191,8 @@ def r3(ctx):
             for v, kind in want.items():
                 e = m.get(v)
                 sites = se_ins if kind == "ins" else se_rem
-                ok = bool(e) and any(x in b.reachable(e[1], stop=nxt) and b.dominated_by_edge(x, e) for x, _ in sites)
+                cls_edges = [m[v2] for v2, k2 in want.items() if k2 == kind and v2 in m]
+                ok = bool(e) and any(x in b.reachable(e[1], stop=nxt) and b.dominated_by_any(x, edges=cls_edges) for x, _ in sites)
                 ctx.inst(R, f"sync_dir:arm:{v}", ok, b.term(e[1]).get("s", b.span) if e else b.span,
                          f"{v} {'marks its entry durable' if kind == 'ins' else 'retires the durable entry'}" if ok else
                          f"sync_dir's {v} arm does not {'insert into' if kind == 'ins' else 'remove from'} synced_entries: the entry's durability is wrong after a crash")
